@@ -333,7 +333,8 @@ type frame struct {
 	caller    *frame
 	block     *ssa.BasicBlock
 	prevBlock *ssa.BasicBlock
-	env       map[ssa.Value]Value
+	env       []Value
+	idx       map[ssa.Value]int
 	defers    []*deferred
 	result    Value
 	panicking bool
@@ -375,8 +376,8 @@ func (fr *frame) get(v ssa.Value) Value {
 	case nil:
 		return nil
 	}
-	if r, ok := fr.env[v]; ok {
-		return r
+	if i, ok := fr.idx[v]; ok {
+		return fr.env[i]
 	}
 	panic(fmt.Sprintf("get: no value for %T %v in %v", v, v.Name(), fr.fn))
 }
@@ -455,6 +456,9 @@ func (m *Machine) call(caller *frame, fn Value, args []Value, pos token.Pos) Val
 	if f.B != nil {
 		return m.callBuiltin(caller, f.B, args, pos)
 	}
+	if f.Native != nil {
+		return f.Native.F(m, caller, args)
+	}
 	if f.Fn == nil {
 		m.runtimePanic("runtime error: invalid memory address or nil pointer dereference (call of nil func)")
 	}
@@ -496,7 +500,8 @@ func (m *Machine) callSSA(caller *frame, fn *ssa.Function, args []Value, env []V
 		m.end("bound", fmt.Sprintf("call depth %d exceeded in %s", m.Lim.MaxDepth, fn.String()))
 	}
 	m.FuncsSeen[fn] = true
-	fr := &frame{m: m, fn: fn, caller: caller, env: make(map[ssa.Value]Value, 16)}
+	info := m.E.fnInfo(fn)
+	fr := &frame{m: m, fn: fn, caller: caller, env: make([]Value, info.n), idx: info.idx}
 	if caller != nil {
 		fr.task = caller.task
 	} else if m.sched != nil {
@@ -504,10 +509,10 @@ func (m *Machine) callSSA(caller *frame, fn *ssa.Function, args []Value, env []V
 	}
 	fr.block = fn.Blocks[0]
 	for i, p := range fn.Params {
-		fr.env[p] = args[i]
+		fr.env[info.idx[p]] = args[i]
 	}
 	for i, fv := range fn.FreeVars {
-		fr.env[fv] = env[i]
+		fr.env[info.idx[fv]] = env[i]
 	}
 	for fr.block != nil {
 		m.runFrame(fr)
@@ -571,7 +576,7 @@ func (m *Machine) runFrame(fr *frame) {
 				}
 			}
 			for i := 0; i < np; i++ {
-				fr.env[instrs[i].(*ssa.Phi)] = vals[i]
+				fr.env[fr.idx[instrs[i].(*ssa.Phi)]] = vals[i]
 			}
 		}
 		jumped := false
@@ -672,28 +677,28 @@ func (m *Machine) visit(fr *frame, instr ssa.Instruction) continuation {
 	switch in := instr.(type) {
 	case *ssa.DebugRef:
 	case *ssa.UnOp:
-		fr.env[in] = m.unop(fr, in, fr.get(in.X))
+		fr.env[fr.idx[in]] = m.unop(fr, in, fr.get(in.X))
 	case *ssa.BinOp:
-		fr.env[in] = m.binop(in.Op, in.X.Type(), in.Y.Type(), fr.get(in.X), fr.get(in.Y))
+		fr.env[fr.idx[in]] = m.binop(in.Op, in.X.Type(), in.Y.Type(), fr.get(in.X), fr.get(in.Y))
 	case *ssa.Call:
 		fn, args := m.prepareCall(fr, &in.Call)
-		fr.env[in] = m.call(fr, fn, args, in.Pos())
+		fr.env[fr.idx[in]] = m.call(fr, fn, args, in.Pos())
 	case *ssa.ChangeInterface:
-		fr.env[in] = fr.get(in.X)
+		fr.env[fr.idx[in]] = fr.get(in.X)
 	case *ssa.ChangeType:
-		fr.env[in] = fr.get(in.X)
+		fr.env[fr.idx[in]] = fr.get(in.X)
 	case *ssa.Convert:
-		fr.env[in] = m.conv(in.Type(), in.X.Type(), fr.get(in.X))
+		fr.env[fr.idx[in]] = m.conv(in.Type(), in.X.Type(), fr.get(in.X))
 	case *ssa.MultiConvert:
-		fr.env[in] = m.conv(in.Type(), in.X.Type(), fr.get(in.X))
+		fr.env[fr.idx[in]] = m.conv(in.Type(), in.X.Type(), fr.get(in.X))
 	case *ssa.SliceToArrayPointer:
 		m.unsupported("SliceToArrayPointer")
 	case *ssa.MakeInterface:
-		fr.env[in] = IfaceV{T: in.X.Type(), V: fr.get(in.X)}
+		fr.env[fr.idx[in]] = IfaceV{T: in.X.Type(), V: fr.get(in.X)}
 	case *ssa.Extract:
-		fr.env[in] = fr.get(in.Tuple).(TupleV)[in.Index]
+		fr.env[fr.idx[in]] = fr.get(in.Tuple).(TupleV)[in.Index]
 	case *ssa.Slice:
-		fr.env[in] = m.sliceOp(fr, in)
+		fr.env[fr.idx[in]] = m.sliceOp(fr, in)
 	case *ssa.Return:
 		switch len(in.Results) {
 		case 0:
@@ -738,14 +743,14 @@ func (m *Machine) visit(fr *frame, instr ssa.Instruction) continuation {
 	case *ssa.MakeChan:
 		n := m.Concretize(fr.get(in.Size).(*sym.Term), "chan size")
 		m.nextID++
-		fr.env[in] = ChanV{&ChanObj{ID: m.nextID, Cap: int(n), ElemT: under(in.Type()).(*types.Chan).Elem()}}
+		fr.env[fr.idx[in]] = ChanV{&ChanObj{ID: m.nextID, Cap: int(n), ElemT: under(in.Type()).(*types.Chan).Elem()}}
 	case *ssa.Alloc:
 		et := in.Type().(*types.Pointer).Elem()
 		what := "local"
 		if in.Heap {
 			what = "new"
 		}
-		fr.env[in] = PtrV{Obj: m.newObj(m.Zero(et), what+" "+in.Comment+" in "+fr.fn.Name(), et)}
+		fr.env[fr.idx[in]] = PtrV{Obj: m.newObj(m.Zero(et), what+" "+in.Comment+" in "+fr.fn.Name(), et)}
 	case *ssa.MakeSlice:
 		ln := m.Concretize(fr.get(in.Len).(*sym.Term), "make len")
 		cp := m.Concretize(fr.get(in.Cap).(*sym.Term), "make cap")
@@ -756,23 +761,23 @@ func (m *Machine) visit(fr *frame, instr ssa.Instruction) continuation {
 			m.end("bound", "make([]T) with capacity > 4096")
 		}
 		et := under(in.Type()).(*types.Slice).Elem()
-		fr.env[in] = m.makeSlice(et, int(ln), int(cp))
+		fr.env[fr.idx[in]] = m.makeSlice(et, int(ln), int(cp))
 	case *ssa.MakeMap:
 		mt := under(in.Type()).(*types.Map)
 		m.nextID++
-		fr.env[in] = MapV{&MapObj{ID: m.nextID, KeyT: mt.Key(), ValT: mt.Elem()}}
+		fr.env[fr.idx[in]] = MapV{&MapObj{ID: m.nextID, KeyT: mt.Key(), ValT: mt.Elem()}}
 	case *ssa.Range:
-		fr.env[in] = m.rangeIter(fr.get(in.X), in.X.Type())
+		fr.env[fr.idx[in]] = m.rangeIter(fr.get(in.X), in.X.Type())
 	case *ssa.Next:
-		fr.env[in] = m.iterNext(fr.get(in.Iter).(*IterV), in)
+		fr.env[fr.idx[in]] = m.iterNext(fr.get(in.Iter).(*IterV), in)
 	case *ssa.FieldAddr:
 		p := fr.get(in.X).(PtrV)
 		if p.Obj == nil {
 			m.runtimePanic("runtime error: invalid memory address or nil pointer dereference")
 		}
-		fr.env[in] = PtrV{p.Obj, extPath(p.Path, in.Field)}
+		fr.env[fr.idx[in]] = PtrV{p.Obj, extPath(p.Path, in.Field)}
 	case *ssa.Field:
-		fr.env[in] = fr.get(in.X).(StructV)[in.Field]
+		fr.env[fr.idx[in]] = fr.get(in.X).(StructV)[in.Field]
 	case *ssa.IndexAddr:
 		x := fr.get(in.X)
 		idx := fr.get(in.Index).(*sym.Term)
@@ -780,14 +785,14 @@ func (m *Machine) visit(fr *frame, instr ssa.Instruction) continuation {
 		switch x := x.(type) {
 		case SliceV:
 			i := m.ResolveIndex(idx, x.Len, signed, "slice index")
-			fr.env[in] = PtrV{x.Arr, []int{x.Off + i}}
+			fr.env[fr.idx[in]] = PtrV{x.Arr, []int{x.Off + i}}
 		case PtrV:
 			if x.Obj == nil {
 				m.runtimePanic("runtime error: invalid memory address or nil pointer dereference")
 			}
 			n := int(under(under(in.X.Type()).(*types.Pointer).Elem()).(*types.Array).Len())
 			i := m.ResolveIndex(idx, n, signed, "array index")
-			fr.env[in] = PtrV{x.Obj, extPath(x.Path, i)}
+			fr.env[fr.idx[in]] = PtrV{x.Obj, extPath(x.Path, i)}
 		default:
 			panic(fmt.Sprintf("IndexAddr on %T", x))
 		}
@@ -798,25 +803,25 @@ func (m *Machine) visit(fr *frame, instr ssa.Instruction) continuation {
 		switch x := x.(type) {
 		case ArrayV:
 			i := m.ResolveIndex(idx, len(x), signed, "array index")
-			fr.env[in] = x[i]
+			fr.env[fr.idx[in]] = x[i]
 		case StrV:
-			i := m.ResolveIndex(idx, len(x.B), signed, "string index")
-			fr.env[in] = x.B[i]
+			i := m.ResolveIndex(idx, x.Len(), signed, "string index")
+			fr.env[fr.idx[in]] = m.strAt(x, i)
 		default:
 			panic(fmt.Sprintf("Index on %T", x))
 		}
 	case *ssa.Lookup:
-		fr.env[in] = m.lookup(in, fr.get(in.X), fr.get(in.Index))
+		fr.env[fr.idx[in]] = m.lookup(in, fr.get(in.X), fr.get(in.Index))
 	case *ssa.MapUpdate:
 		m.mapUpdate(fr.get(in.Map).(MapV), fr.get(in.Key), fr.get(in.Value))
 	case *ssa.TypeAssert:
-		fr.env[in] = m.typeAssert(in, fr.get(in.X).(IfaceV))
+		fr.env[fr.idx[in]] = m.typeAssert(in, fr.get(in.X).(IfaceV))
 	case *ssa.MakeClosure:
 		b := make([]Value, len(in.Bindings))
 		for i, x := range in.Bindings {
 			b[i] = fr.get(x)
 		}
-		fr.env[in] = FuncV{Fn: in.Fn.(*ssa.Function), Env: b}
+		fr.env[fr.idx[in]] = FuncV{Fn: in.Fn.(*ssa.Function), Env: b}
 	case *ssa.Select:
 		m.unsupported("select")
 	default:
@@ -873,11 +878,14 @@ func (m *Machine) sliceOp(fr *frame, in *ssa.Slice) Value {
 	switch x := x.(type) {
 	case StrV:
 		lo := m.optInt(fr, in.Low, 0, "slice low")
-		hi := m.optInt(fr, in.High, len(x.B), "slice high")
-		if lo < 0 || hi < lo || hi > len(x.B) {
-			m.runtimePanic(fmt.Sprintf("runtime error: slice bounds out of range [%d:%d] with length %d", lo, hi, len(x.B)))
+		hi := m.optInt(fr, in.High, x.Len(), "slice high")
+		if lo < 0 || hi < lo || hi > x.Len() {
+			m.runtimePanic(fmt.Sprintf("runtime error: slice bounds out of range [%d:%d] with length %d", lo, hi, x.Len()))
 		}
-		return StrV{x.B[lo:hi]}
+		if x.Conc {
+			return StrV{C: x.C[lo:hi], Conc: true}
+		}
+		return StrV{B: x.B[lo:hi]}
 	case SliceV:
 		lo := m.optInt(fr, in.Low, 0, "slice low")
 		hi := m.optInt(fr, in.High, x.Len, "slice high")
@@ -924,8 +932,8 @@ func (m *Machine) lookup(in *ssa.Lookup, x, idx Value) Value {
 	switch x := x.(type) {
 	case StrV:
 		_, signed, _ := intInfo(in.Index.Type())
-		i := m.ResolveIndex(idx.(*sym.Term), len(x.B), signed, "string index")
-		return x.B[i]
+		i := m.ResolveIndex(idx.(*sym.Term), x.Len(), signed, "string index")
+		return m.strAt(x, i)
 	case MapV:
 		vt := under(in.X.Type()).(*types.Map).Elem()
 		var v Value
@@ -1001,7 +1009,7 @@ func (m *Machine) rangeIter(x Value, t types.Type) *IterV {
 		return it
 	case StrV:
 		it := &IterV{}
-		for i, b := range x.B {
+		for i, b := range m.sb(x) {
 			// only ASCII bytes are supported when ranging over a string
 			if !m.Branch(m.S.Cmp("bvult", b, m.S.Const(8, 0x80))) {
 				m.unsupported("range over string with non-ASCII byte")
